@@ -45,3 +45,10 @@ PROPS = {
         "assumptions": ["'formatted as an IP address' is read as 'parses under Go net.ParseIP' (the documented mechanism)"],
     },
 }
+
+# properties whose check is not built yet are listed so the manifest stays honest
+for _i in range(1, 18):
+    _pid = "C%02d" % _i
+    if _pid not in PROPS:
+        NOT_APPLICABLE.append({"property_id": _pid,
+                               "reason": "check not built yet (work in progress); the technique applies, see DESIGN.md section 6"})
